@@ -5,7 +5,11 @@ sys.path.insert(0, os.path.dirname(os.path.abspath(__file__)))
 import time_machine
 for _c in (DeprecationWarning, PendingDeprecationWarning, FutureWarning): warnings.filterwarnings("error", category=_c, module=r"aioswitcher(\..*)?$")     # as in world.py
 import logging
-logging.getLogger("aioswitcher").addHandler(logging.NullHandler()); logging.getLogger("aioswitcher").propagate = False; logging.getLogger("aioswitcher").setLevel(logging.DEBUG)   # as in check.py: code that only runs while someone is debugging runs here too
+class _Sink(logging.Handler):
+    def emit(self, record):
+        try: record.getMessage()          # render the message as a real handler would (lib.FormattingSink), then drop it
+        except Exception: pass
+logging.getLogger("aioswitcher").addHandler(_Sink()); logging.getLogger("aioswitcher").propagate = False; logging.getLogger("aioswitcher").setLevel(logging.DEBUG)   # as in check.py: code that only runs while someone is debugging runs here too
 from aioswitcher.schedule import Days, tools
 from aioswitcher.schedule.parser import get_schedules
 
@@ -22,13 +26,13 @@ def show_schedule(s, with_display):
     return ",".join(f)
 
 
-def schedules(c, with_display=True):
+def schedules(c, with_display=True, edit=True):
     with time_machine.travel(at(c["now"]), tick=False), warnings.catch_warnings():
         warnings.simplefilter("ignore")
         try:
             first = "|".join(show_schedule(s, with_display) for s in sorted(get_schedules(bytes.fromhex(c["msg"])), key=lambda s: int(s.schedule_id)))
         except Exception: return "raised"
-        if int(c["now"]) % 2: return first
+        if int(c["now"]) % 2 or not edit: return first
         # what a listing returns belongs to the application: it edits the day sets it was given (the usual way to change a schedule), then lists again
         try:
             for sch in get_schedules(bytes.fromhex(c["msg"])):
@@ -97,7 +101,10 @@ def next_run(c):
                     other = SwitcherSchedule("0", True, {DAYS[(int(c["now"]) // 7) % 7]}, "00:00", "00:01")
                     derived = dataclasses.replace(other, recurring=bool(c["days"]), days={DAYS[i] for i in c["days"]}, start_time=c["start"])
                     shown = derived.display
-                except Exception as e: shown = "raised " + type(e).__name__
+                except Exception as e:
+                    shown = "raised " + type(e).__name__
+                    try: tools.calc_duration(c["start"], "00:01")
+                    except Exception: shown = txt          # again the duration, not the text, is what cannot be computed
                 if shown != txt: txt = "%s (display of a schedule derived with dataclasses.replace; pretty_next_run itself says: %s)" % (shown, txt)
     return {"text": txt, "facts_now": local_facts(c["now"])}
 
@@ -142,7 +149,7 @@ def create_readback(c):
 
 JOBS = {"duration": duration, "schedules": schedules, "clock": clock, "decode": decode, "next_run": next_run, "next_run_reuse": next_run_reuse, "next_run_ticking": next_run_ticking, "create_readback": create_readback,
         "facts": lambda c: local_facts(c["t"]),
-        "schedules_nodisplay": lambda c: schedules(c, False)}
+        "schedules_nodisplay": lambda c: schedules(c, False, False)}          # C14 reads durations only: the edit-and-list-again step is C10's and C13's
 def with_zone(f, c):
     """a case may name its own zone: the host zone is switched inside this one process (TZ + tzset) before the case runs"""
     global ZONE, TZ
